@@ -1,8 +1,58 @@
-/- driver ops for the Reason model (filled in when the module is ported) -/
+/-
+Driver ops for the Reason model (src/reason.rs, the backward reasoner).
+
+  cant_halt <depth> | prog            cant_blank <depth> | prog       cant_spin_out <depth> | prog
+      the unrepaired code (fixF1 = fixF2 = false); same ops exist in the harness
+  cant_halt_fix <f1:0|1> <f2:0|1> <depth> | prog      (same for _blank_fix, _spin_out_fix)
+      driver only: the model with the repair switches
+
+output: refuted(<step>) | init | linrec | spinout | step_limit | depth_limit | PANIC
+        (| limit:overflow when `CompProg::from_str` hits the `state as u8 - 65` underflow)
+-/
 import BB.Model.Instrs
+import BB.Model.Reason
 
 namespace BB.Driver.OpsReason
 
-def handle (_op : String) (_args : List String) (_text : String) : Option String := none
+open BB.Reason
+
+def showBackward : BackwardResult → String
+  | .refuted step => s!"refuted({step})"
+  | .init => "init"
+  | .linRec => "linrec"
+  | .spinout => "spinout"
+  | .stepLimit => "step_limit"
+  | .depthLimit => "depth_limit"
+
+def showErr : PErr → String
+  | .panic _ => "PANIC"
+  | .overflow _ => "limit:overflow"
+
+def showRes : PRes BackwardResult → String
+  | .ok r => showBackward r
+  | .error e => showErr e
+
+def withProg (text : String) (f : Prog → String) : String :=
+  match Prog.fromStr text with
+  | .error e => showErr e
+  | .ok p => f p
+
+def flag (s : String) : Bool := s == "1"
+
+def handle (op : String) (args : List String) (text : String) : Option String :=
+  match op, args with
+  | "cant_halt", [depth] =>
+      some (withProg text fun p => showRes (cantHalt p depth.toNat!))
+  | "cant_blank", [depth] =>
+      some (withProg text fun p => showRes (cantBlank p depth.toNat!))
+  | "cant_spin_out", [depth] =>
+      some (withProg text fun p => showRes (cantSpinOut p depth.toNat!))
+  | "cant_halt_fix", [f1, f2, depth] =>
+      some (withProg text fun p => showRes (cantHalt p depth.toNat! (flag f1) (flag f2)))
+  | "cant_blank_fix", [f1, _f2, depth] =>
+      some (withProg text fun p => showRes (cantBlank p depth.toNat! (flag f1)))
+  | "cant_spin_out_fix", [f1, _f2, depth] =>
+      some (withProg text fun p => showRes (cantSpinOut p depth.toNat! (flag f1)))
+  | _, _ => none
 
 end BB.Driver.OpsReason
